@@ -145,10 +145,10 @@ CorrespOK(A, B, new) ==
 
 (* columns no listed property mentions but the specification models (L2) *)
 RowExtraOK(A, row) ==
-    /\ row.observations_delayed * K =
-          SumFunction([o \in {o \in ObsNames : A.obs[o].status = "WAITING" /\ A.now > OCfg(o).est * K} |->
-                         A.now - OCfg(o).est * K])
-    /\ row.delay_offset * K = A.sch.doff
+    /\ row.observations_delayed =            \* (the harness reports both columns in ticks)
+          SumFunction([o \in {o \in ObsNames : A.obs[o].status = "WAITING" /\ A.now > EstT(o)} |->
+                         A.now - EstT(o)])
+    /\ row.delay_offset = A.sch.doff
     /\ row.schedule_status = A.sch.status
 RowOK(A, row) == \A c \in DOMAIN TrueRow(A) : row[c] = TrueRow(A)[c]
 
